@@ -267,6 +267,52 @@ LebLen(b, p) == LET u == LebU(b, p) IN
 Fixed(b, p, n, le) == IF p + n - 1 > Len(b) THEN [ok |-> FALSE, err |-> "UnexpectedEof"]
                       ELSE [ok |-> TRUE, v |-> ZExt(Lay(SubSeq(b, p, p + n - 1), le), 8), p |-> p + n]
 
+(*------------------------------------------------------------------------*)
+(* DW_EH_PE pointer encodings (parse_encoded_pointer / parse_encoded_value *)
+(* / Pointer).  pe = [on |-> FALSE] (.debug_frame, CIE instructions) or    *)
+(* [on |-> TRUE, enc, section, text, data] with optional base addresses    *)
+(* [some |-> FALSE] | [some |-> TRUE, v |-> BV8] (BaseAddresses.eh_frame). *)
+(*------------------------------------------------------------------------*)
+NoPE == [on |-> FALSE]
+NoBase == [some |-> FALSE]
+SomeBase(v) == [some |-> TRUE, v |-> v]
+EhFormat(enc) == enc % 16
+EhApp(enc) == (enc \div 16) % 8
+EhIndirect(enc) == enc >= 128
+EhValid(enc) == enc = 255 \/ (EhFormat(enc) \in {0, 1, 2, 3, 4, 9, 10, 11, 12} /\ EhApp(enc) \in {0, 1, 2, 3, 4, 5})
+WrapSized(v, asz) == ZExt(Trunc(v, asz), 8)                       \* & ones_sized(asz)
+FixedS(b, p, n, le) == IF p + n - 1 > Len(b) THEN [ok |-> FALSE, err |-> "UnexpectedEof"]
+                       ELSE [ok |-> TRUE, v |-> SExt(Lay(SubSeq(b, p, p + n - 1), le), 8), p |-> p + n]
+(* parse_encoded_value: the format nibble only; signed formats sign-extend to 64 bits *)
+EncodedValue(fmt, b, p, asz, le) ==
+    CASE fmt = 0  -> IF asz \notin {1, 2, 4, 8} THEN [ok |-> FALSE, err |-> "UnsupportedAddressSize"] ELSE Fixed(b, p, asz, le)
+      [] fmt = 1  -> LebU(b, p)
+      [] fmt = 2  -> Fixed(b, p, 2, le)
+      [] fmt = 3  -> Fixed(b, p, 4, le)
+      [] fmt = 4  -> Fixed(b, p, 8, le)
+      [] fmt = 9  -> LebS(b, p)
+      [] fmt = 10 -> FixedS(b, p, 2, le)
+      [] fmt = 11 -> FixedS(b, p, 4, le)
+      [] fmt = 12 -> FixedS(b, p, 8, le)
+(* parse_encoded_pointer at index p of b (section offset of b[1] = base); func = optional *)
+(* function base.  Result [ok, v, indirect, p] or [ok |-> FALSE, err].  The base is       *)
+(* resolved (and a missing one reported) before the value is read.                        *)
+EncodedPointer(pe, b, p, base, asz, le, func) ==
+    IF ~EhValid(pe.enc) THEN [ok |-> FALSE, err |-> "UnknownPointerEncoding"]
+    ELSE IF pe.enc = 255 THEN [ok |-> FALSE, err |-> "CannotParseOmitPointerEncoding"]
+    ELSE LET app == EhApp(pe.enc)
+             bs  == CASE app = 0 -> SomeBase(Z8)
+                      [] app = 1 -> IF pe.section.some THEN SomeBase(WrapSized(Add8(pe.section.v, Nat8(base + p - 1)), asz))
+                                    ELSE [some |-> FALSE, err |-> "PcRelativePointerButSectionBaseIsUndefined"]
+                      [] app = 2 -> IF pe.text.some THEN pe.text ELSE [some |-> FALSE, err |-> "TextRelativePointerButTextBaseIsUndefined"]
+                      [] app = 3 -> IF pe.data.some THEN pe.data ELSE [some |-> FALSE, err |-> "DataRelativePointerButDataBaseIsUndefined"]
+                      [] app = 4 -> IF func.some THEN func ELSE [some |-> FALSE, err |-> "FuncRelativePointerInBadContext"]
+                      [] app = 5 -> [some |-> FALSE, err |-> "UnsupportedPointerEncoding"] IN
+         IF ~bs.some THEN [ok |-> FALSE, err |-> bs.err]
+         ELSE LET v == EncodedValue(EhFormat(pe.enc), b, p, asz, le) IN
+              IF ~v.ok THEN [ok |-> FALSE, err |-> v.err]
+              ELSE [ok |-> TRUE, v |-> WrapSized(Add8(bs.v, v.v), asz), indirect |-> EhIndirect(pe.enc), p |-> v.p]
+
 PBad(e)     == [ins |-> Bad(e), p |-> 0]
 POk(i, p)   == [ins |-> i, p |-> p]
 
@@ -292,7 +338,7 @@ PExpr(b, p, base, op, hasreg, reg) ==
     ELSE POk(IF hasreg THEN [op |-> op, r |-> reg, eo |-> base + n.p - 1, el |-> n.v]
              ELSE [op |-> op, eo |-> base + n.p - 1, el |-> n.v], n.p + n.v)
 
-ParseOne(b, p, base, asz, le, vendor) ==
+ParseOneX(b, p, base, asz, le, vendor, pe) ==
     LET c  == b[p]
         hi == c \div 64
         lo == c % 64
@@ -302,7 +348,12 @@ ParseOne(b, p, base, asz, le, vendor) ==
         LET u == LebU(b, q) IN IF ~u.ok THEN PBad(u.err) ELSE POk([op |-> "Offset", r |-> lo, f |-> u.v], u.p)
     ELSE IF hi = 3 THEN POk([op |-> "Restore", r |-> lo], q)
     ELSE CASE c = 0  -> POk([op |-> "Nop"], q)
-           [] c = 1  -> IF asz \notin {1, 2, 4, 8} THEN PBad("UnsupportedAddressSize")
+           [] c = 1  -> IF pe.on THEN      \* parse_encoded_pointer(encoding, ..)?.direct()?  (func_base = None)
+                             LET a == EncodedPointer(pe, b, q, base, asz, le, NoBase) IN
+                             IF ~a.ok THEN PBad(a.err)
+                             ELSE IF a.indirect THEN PBad("UnsupportedIndirectPointer")
+                             ELSE POk([op |-> "SetLoc", a |-> a.v], a.p)
+                        ELSE IF asz \notin {1, 2, 4, 8} THEN PBad("UnsupportedAddressSize")
                         ELSE LET a == Fixed(b, q, asz, le) IN
                              IF ~a.ok THEN PBad(a.err) ELSE POk([op |-> "SetLoc", a |-> a.v], a.p)
            [] c = 2  -> LET a == Fixed(b, q, 1, le) IN IF ~a.ok THEN PBad(a.err) ELSE POk([op |-> "AdvanceLoc", d |-> a.v], a.p)
@@ -333,15 +384,54 @@ ParseOne(b, p, base, asz, le, vendor) ==
            [] c = 45 /\ vendor = "aarch64" -> POk([op |-> "NegateRaState"], q)
            [] OTHER  -> PBad("UnknownCallFrameInstruction")
 
+ParseOne(b, p, base, asz, le, vendor) == ParseOneX(b, p, base, asz, le, vendor, NoPE)
+
 (* CallFrameInstructionIter: the whole lazily decoded stream; a parse      *)
 (* error empties the input, so it is the last element.                     *)
-RECURSIVE DecodeFrom(_, _, _, _, _, _)
-DecodeFrom(b, p, base, asz, le, vendor) ==
+RECURSIVE DecodeFromX(_, _, _, _, _, _, _)
+DecodeFromX(b, p, base, asz, le, vendor, pe) ==
     IF p > Len(b) THEN <<>>
-    ELSE LET r == ParseOne(b, p, base, asz, le, vendor) IN
+    ELSE LET r == ParseOneX(b, p, base, asz, le, vendor, pe) IN
          IF r.ins.op = "Bad" THEN <<r.ins>>
-         ELSE <<r.ins>> \o DecodeFrom(b, r.p, base, asz, le, vendor)
+         ELSE <<r.ins>> \o DecodeFromX(b, r.p, base, asz, le, vendor, pe)
+DecodeFrom(b, p, base, asz, le, vendor) == DecodeFromX(b, p, base, asz, le, vendor, NoPE)
 DecodeAll(b, base, asz, le, vendor) == DecodeFrom(b, 1, base, asz, le, vendor)
+
+(*------------------------------------------------------------------------*)
+(* `.eh_frame`: one version-1 CIE with augmentation "zR" (FDE pointer      *)
+(* encoding `enc`) at offset 0 followed by one FDE.  The FDE's initial     *)
+(* location, address range and every DW_CFA_set_loc operand are written in *)
+(* the encoding's format (`EncRaw`) from raw 64-bit values.                *)
+(*------------------------------------------------------------------------*)
+EncRaw(fmt, v, asz, le) ==
+    CASE fmt = 0 -> Lay(Trunc(v, asz), le)
+      [] fmt = 1 -> ULeb(v)
+      [] fmt \in {2, 10} -> Lay(Trunc(v, 2), le)
+      [] fmt \in {3, 11} -> Lay(Trunc(v, 4), le)
+      [] fmt \in {4, 12} -> Lay(Trunc(v, 8), le)
+      [] fmt = 9 -> SLeb(v)
+      [] OTHER -> <<>>
+EhCieHead(cfg, enc) == Lay(<<0, 0, 0, 0>>, cfg.le) \o <<1, 122, 82, 0>> \o ULeb(cfg.caf) \o SLeb(cfg.daf) \o <<cfg.ra>> \o <<1, enc>>
+EhCieInsOff(cfg, enc) == 4 + Len(EhCieHead(cfg, enc))
+(* e = [enc, init, range (raw values)], cieb / fdeb = instruction bytes *)
+EhSection(cfg, e, cieb, fdeb) ==
+    LET cb == EhCieHead(cfg, e.enc) \o cieb
+        fo == 4 + Len(cb)
+        fb == U32(fo + 4, cfg.le) \o EncRaw(EhFormat(e.enc), e.init, cfg.asz, cfg.le)
+              \o EncRaw(EhFormat(e.enc), e.range, cfg.asz, cfg.le) \o <<0>> \o fdeb IN
+    U32(Len(cb), cfg.le) \o cb \o U32(Len(fb), cfg.le) \o fb
+EhFdeOff(cfg, e, cieb) == 4 + Len(EhCieHead(cfg, e.enc)) + Len(cieb)
+(* FrameDescriptionEntry::parse_rest over the section bytes as coded: the CIE's 'R' byte  *)
+(* must be a valid encoding (parse_pointer_encoding); initial location =                  *)
+(* parse_encoded_pointer(..).pointer() (indirection ignored, no function base); range =   *)
+(* parse_encoded_value; then the augmentation data length.                                *)
+EhFdeHeader(sec, fdeoff, pe, asz, le) ==
+    IF ~EhValid(pe.enc) THEN [ok |-> FALSE, err |-> "UnknownPointerEncoding"]
+    ELSE LET i == EncodedPointer(pe, sec, fdeoff + 9, 0, asz, le, NoBase) IN
+         IF ~i.ok THEN i
+         ELSE LET r == EncodedValue(EhFormat(pe.enc), sec, i.p, asz, le) IN
+              IF ~r.ok THEN r
+              ELSE [ok |-> TRUE, start |-> i.v, range |-> r.v, ins |-> r.p + 1]     \* 1-based index of the first instruction
 
 (*------------------------------------------------------------------------*)
 (* 3. The machine as coded                                                 *)
